@@ -37,6 +37,10 @@ CHECKS = {
    text="Heap.tla transcribes 24 container operations (constructors, views, non-mutating builders, mutators, sorted maps keyed by name) over backing arrays, windows (offset, length, capacity, sealed) and element references. TLC checks exhaustively over all 2-operation histories the action property NonMut (a non-mutating operation leaves the rendering of every pre-existing variable unchanged) and the invariants ProgramFrozen, NoLaunder, WellFormed, NoSpareOnViews; every history ending in a mutator (all alias x mutator pairs, ~21k) and seeded simulated histories of 5-6 operations are replayed on the real interpreter with every variable re-printed after every step and compared with the specification's rendering.",
    note="Not in the operation alphabet: byte strings (append-bytes), zip, insert-sorted, multi-dimensional arrays. Capacity growth of an owning vector is not observable (views are clamped) and is modelled only up to that.",
    technique="TLA+ model checking with TLC (exhaustive pairs + simulation); spec histories replayed on the code", ref="DESIGN.md 6 C11"),
+ "C14": dict(engine="Schema",
+   text="Schema.tla defines Build(schema) and Accept(schema, value) as recursive functions over schema terms from the declared meaning of the s package (types, s:in, comparisons, length constraints, s:of, key constraints, s:no-other-keys, s:when, s:not, truthiness, regexp, nested validators, malformed terms). TLC computes the verdict of every generated schema (every type x every single constraint / composite / malformed term, plus seeded two-constraint schemas) against 33 representative values, with the algebraic laws NotInverts, FalsyIsNotTruthy, MalformedNeverPasses as invariants; the harness builds each schema with s:make-validator and evaluates s:validate on the real interpreter and compares construction outcome and result class / condition for every pair.",
+   note="Regular expressions are limited to three fixed patterns (TLC strings are opaque). Tagged-value validators and s:deftype's global binding are not generated. One known finding: the strings \"true\"/\"false\" pass boolean checks (pinned by the repository's own test).",
+   technique="TLA+ (TLC evaluates the specification's Accept on every case); spec verdicts replayed on the code", ref="DESIGN.md 6 C14"),
 }
 
 NA_REASON = "check under construction (see DESIGN.md section 6); not yet claimed"
